@@ -248,6 +248,11 @@ def check(ctx):
     # ---- C08.d dispatch loops are exhaustive (shared with C01.b) ----
     nshared = core.adopt(ctx, c01, lambda o: o["rule"] == "C01.b" and ("schedule_removal_reactions" in o["key"] or "schedule_despawn_reactions" in o["key"]), "C08.d")
     ctx.floor("C08.d", nshared, 8, "shared C01.b obligations of the polled schedulers")
+    nk = core.adopt(ctx, c01, lambda o: o["rule"] == "C01.a" and "entity-scoped-dispatch:every-component-kind" in o["key"], "C08.d")
+    ctx.floor("C08.d", nk, 1, "shared entity-scoped dispatch coverage (C01.a)")
+
+    _one_checker_per_component(ctx, prog)
+    _removal_scheduler_shape(ctx, prog)
 
     # ---- C08.e poll coverage ----
     R = ctx.anchor("C08.e", lambda: A.runner(prog), "runner")
@@ -324,3 +329,98 @@ def entity_of(c, op):
                 continue
         out.append({tuple(o)})
     return out
+
+
+def _one_checker_per_component(ctx, prog):
+    """C08.a: at most one removal checker (one RemovedComponents cursor) per component type - a second checker would report
+    every removal a second time. Every function that appends a checker does so behind the `not yet tracked` arm of a
+    membership test on a set, and records the component in that same set on every path that appends."""
+    n = 0
+    for body in prog.bodies:
+        pushes = []
+        for b, t, fr in body.iter_calls():
+            if fr and lib.tail(mir.fn_name(fr), 1) in ("push", "push_back", "insert") and len(t["args"]) > 1:
+                ty = body.local_ty(op_place(t["args"][1])["l"]) if op_place(t["args"][1]) and not op_place(t["args"][1])["p"] else ""
+                if ty.endswith("::RemovalChecker"):
+                    pushes.append(b)
+        if not pushes:
+            continue
+        ctx.touch(body)
+        fk = lib.fkey(body)
+        sets = {}
+        for b, t, fr in body.iter_calls():
+            if fr and lib.tail(mir.fn_name(fr), 1) in ("contains", "insert", "contains_key") and t["args"]:
+                ch = lib.receiver_chains(body, t["args"][0])
+                for (f, chain) in ch:
+                    if f and "Set" in str(fr.get("path", "")) + str(fr.get("resolved", "")):
+                        sets.setdefault(f[1], {"contains": [], "insert": []})["contains" if "contains" in lib.tail(mir.fn_name(fr), 1) else "insert"].append((b, t))
+        for pb in pushes:
+            n += 1
+            ok = False
+            for fld, ops in sets.items():
+                for (cb, ct) in ops["contains"]:
+                    arms = lib.bool_arms(body, cb)
+                    if not arms:
+                        continue
+                    absent_t = arms[0][2]
+                    ins = [ib for ib, it in ops["insert"] if lib.loops_key(body, it["args"][1]) == lib.loops_key(body, ct["args"][1])] if hasattr(lib, "loops_key") else [ib for ib, it in ops["insert"]]
+                    if body.dominates(absent_t, pb) and ins and (any(body.dominates(ib, pb) for ib in ins) or
+                                                               lib.path_to_return_avoiding(body, [lib.call_target(body, pb)], ins) is None):
+                        ok = True
+            ctx.check(ok, "C08.a", "%s:one-checker-per-component" % fk, body.loc(pb),
+                      "a removal checker is added only for a component not yet in the tracked set, and the component is recorded on that path",
+                      "removal checkers can be added more than once for one component (not guarded by a membership test that is updated on the same path): "
+                      "every removal would be reported once per checker")
+    ctx.floor("C08.a", n, 1, "sites that add a removal checker")
+
+
+def _removal_scheduler_shape(ctx, prog):
+    """C08.d: the polled removal scheduler asks every checker (each iteration calls the element's collector) and dispatches
+    what that call returned, to the entity-scoped reactors of each reported entity and to the type-wide list"""
+    try:
+        m = A.method(prog, "ReactCache", "schedule_removal_reactions")
+    except mir.AnchorLost as e:
+        ctx.fail("C08.d", "anchor-lost:schedule_removal_reactions", "", str(e))
+        return
+    ctx.touch(m)
+    loops = LP.find_loops(m)
+    outer = [L for L in loops if L.driver is not None and not any(L.header in L2.blocks and L2 is not L for L2 in loops)]
+    ok_call = ok_buf = False
+    for L in outer:
+        # the collector call: a call inside the loop whose receiver derives from the element produced by the loop driver
+        calls = []
+        for b, t, fr in m.iter_calls(L.blocks):
+            if fr is None or not t["args"] or b == L.driver:
+                continue
+            if lib.originates_from_call(m, t["args"][0], L.driver) and "World" in " ".join(m.local_ty(op_place(a)["l"]) for a in t["args"] if op_place(a) and not op_place(a)["p"]):
+                calls.append(b)
+        inner = [L2 for L2 in loops if L2 is not L and L2.header in L.blocks and L2.driver is not None]
+        for c in calls:
+            if all(m.dominates(c, L2.header) for L2 in inner) and inner:
+                ok_call = True
+                # the entities iterated are the ones the collector returned
+                for L2 in inner:
+                    d = m.blocks[L2.driver]["term"]
+                    if d["args"] and _derives_from_call(m, d["args"][0], c):
+                        ok_buf = True
+    ctx.check(ok_call, "C08.d", "schedule_removal_reactions:every-checker-is-polled", "%s:%d" % (m.file, m.line),
+              "each iteration over the removal checkers calls that checker's collector before dispatching",
+              "the loop over the removal checkers does not call the checker's collector on every iteration (removals are never detected)")
+    ctx.check(ok_buf, "C08.d", "schedule_removal_reactions:dispatches-what-the-checker-returned", "%s:%d" % (m.file, m.line),
+              "the dispatch loop iterates the entities returned by the collector call of the same iteration",
+              "the entities dispatched are not the ones returned by the checker's collector")
+
+
+def _derives_from_call(body, op, target, depth=0):
+    """the operand is the result of call `target`, possibly through a chain of adaptor calls on their first argument
+    (`buffer.iter()`, `into_iter`, `&mut iter`)"""
+    if depth > 8:
+        return False
+    for o in origins(body, op):
+        if o[0] == "call":
+            if o[1] == target:
+                return True
+            t = body.blocks[o[1]]["term"]
+            if t["args"] and _derives_from_call(body, t["args"][0], target, depth + 1):
+                return True
+    return False
